@@ -2,6 +2,7 @@
 # usage: tools/mutmatrix.sh <out.tsv> [workers] [file …]
 # Sensitivity measurement (not a registered check): every single-point mutant (bin/mutgen) of the library's non-test
 # sources is built, checked with all 20 rule sets, and run against the pinned test suite, on scratch copies of /repo.
+# MUT_NOTESTS=1 skips the test-suite run (column tests = -).
 # Columns: file idx kind line func desc | build(ok/fail) | tests(pass/fail/-) | checks fired | rules fired
 OUT="$(realpath -m "$1")"; W="${2:-6}"; shift 2 2>/dev/null
 export GOFLAGS=-mod=mod GOPROXY=off GOSUMDB=off GOTOOLCHAIN=local GOWORK=off
@@ -30,7 +31,7 @@ worker() {
       out=$(/verif/bin/dcpverif -prop all -repo "$D/repo" -out /verif -no-evidence 2>&1)
       fired=$(echo "$out" | grep -oE "^VIOLATION property=C[0-9]+" | sed 's/VIOLATION property=//' | tr '\n' ' ')
       rules=$(echo "$out" | grep -E "^\s+\[(violated|undecided)\]" | sed -E 's/^\s+\[(violated|undecided)\] ([^|]+)\|.*/\2/' | sort -u | tr '\n' ' ')
-      if (cd "$D/repo" && timeout 300 go test -vet=off -count=1 ./... >/dev/null 2>&1); then t=pass; else t=fail; fi
+      if [ -n "${MUT_NOTESTS:-}" ]; then t=-; elif (cd "$D/repo" && timeout 300 go test -vet=off -count=1 ./... >/dev/null 2>&1); then t=pass; else t=fail; fi
     else
       b=fail
     fi
